@@ -377,15 +377,15 @@ pub fn default_runs(prop: &str, tier: &str) -> u64 {
     let quick = tier != "thorough";
     match (prop, quick) {
         ("C07", true) => 24_000,
-        ("C07", false) => 1_000_000,
+        ("C07", false) => 400_000,
         ("C12", true) => 30_000,
-        ("C12", false) => 1_200_000,
+        ("C12", false) => 400_000,
         ("C16", true) => 120_000,
         ("C16", false) => 6_000_000,
         ("C08", true) => 80_000,
-        ("C08", false) => 4_000_000,
+        ("C08", false) => 2_000_000,
         (_, true) => 50_000,
-        (_, false) => 2_000_000,
+        (_, false) => 1_000_000,
     }
 }
 
